@@ -74,7 +74,14 @@ const REPLACEMENTS: [(&str, &str); 49] = [
 
 /// (program, label): destructuring iterations; the ill-typed ones use a tuple component as a value of
 /// another kind and must be rejected by the type checker, the well-typed ones must pass both stages.
-const DESTRUCTURING: [(&str, &str); 14] = [
+const DESTRUCTURING: [(&str, &str); 20] = [
+    // declarations without an iteration whose compound name has an index that is not declared anywhere else
+    ("min x\ns.t.\n    x >= 1\nwhere\n    let G = Graph {\n        P -> [Q: 2],\n        Q\n    }\ndefine\n    x as Real(0, 5)\n    y_G as Boolean\n", "declared-name-indexed-by-graph-constant"),
+    ("min x\ns.t.\n    x >= 1\nwhere\n    let M = [[1, 2], [3, 4]]\ndefine\n    x as Real(0, 5)\n    y_M as Boolean\n", "declared-name-indexed-by-matrix-constant"),
+    ("min x\ns.t.\n    x >= 1\ndefine\n    x as Real(0, 5)\n    y_{len(3)} as Boolean\n", "declared-name-indexed-by-ill-typed-call"),
+    ("min x\ns.t.\n    x >= 1\nwhere\n    let A = [4, 5]\ndefine\n    x as Real(0, 5)\n    y_{enumerate(A)} as Boolean\n", "declared-name-indexed-by-tuple-list"),
+    ("min x\ns.t.\n    x >= 1\nwhere\n    let k = 2\ndefine\n    x as Real(0, 5)\n    y_k as Boolean\n", "declared-name-indexed-by-number-constant(well-typed)"),
+    ("min x\ns.t.\n    x >= 1\nwhere\n    let A = [4, 5]\ndefine\n    x as Real(0, 5)\n    y_{len(A)} as Boolean\n    z_{\"a\"} as Boolean\n", "declared-name-indexed-by-call-and-string(well-typed)"),
     // constraint names with an index: the index is part of a name, so it has to be a number, a string or a node
     ("min x\ns.t.\n    cap_e: x >= 1 for e in edges(G)\nwhere\n    let G = Graph {\n        P -> [Q: 2],\n        Q\n    }\ndefine\n    x as Real(0, 5)\n", "constraint-name-indexed-by-edge"),
     ("min x\ns.t.\n    cap_t: x >= 1 for t in enumerate(A)\nwhere\n    let A = [4, 5]\ndefine\n    x as Real(0, 5)\n", "constraint-name-indexed-by-tuple"),
